@@ -1,4 +1,13 @@
 #include "common.hpp"
+#include <type_traits>
+
+// The generators of the maps are (re)seeded here.  The statement must keep compiling when the member's qualifiers
+// change in the repository (`const`, `mutable`, ...): the qualifier is cast away, so that such a change is judged by
+// what it does to the particles / the modulation and not by a compile error of the harness.
+template <class T> static typename std::remove_const<T>::type& unconst(T& x)
+{
+    return const_cast<typename std::remove_const<T>::type&>(x);
+}
 // Correspondence harness for particle tracking (C15): every map is driven through the
 // SourceMap interface (virtual applyTo via SourceMap::applyToAll) exactly as main.cpp does.
 
@@ -105,8 +114,8 @@ static void do_track()
             pf(in->getAxis(1)->zerobin()); pf(in->getDelta(1)); pf(in->getAxis(1)->min()); pf(in->getAxis(0)->zerobin());
             printf("\n");
             if (fptrack == 3) {
-                fpm->_prng.seed(seed);
-                fpm->_normdist.reset();
+                unconst(fpm->_prng).seed(seed);
+                unconst(fpm->_normdist).reset();
                 // the values the map's own generator will hand out next: drawn from copies
                 auto g = fpm->_prng;
                 auto d = fpm->_normdist;
@@ -189,8 +198,8 @@ static void do_ens()
     auto out = mkps(n, 1, -6, 6, pmin, pmax);
     FokkerPlanckMap fpm(in, out, n, n, FokkerPlanckMap::FPType::full, FokkerPlanckMap::FPTracking::stochastic,
                         e1, FokkerPlanckMap::DerivationType::cubic, nullptr);
-    fpm._prng.seed(seed);
-    fpm._normdist.reset();
+    unconst(fpm._prng).seed(seed);
+    unconst(fpm._normdist).reset();
     std::mt19937 g(seed * 7919u + 13u);
     const double delta = in->getDelta(1);
     const double yc = -(double)pmin / delta;
@@ -275,8 +284,8 @@ static void do_dyntrack()
     std::shared_ptr<DynamicRFKickMap> drfm(new DynamicRFKickMap(g1, g2, n, n, angle, revpart, fRF,
                                                               phasespread, amplspread, modampl, modtimeinc, steps,
                                                               itp, false, nullptr));
-    drfm->_prng.seed(seed);
-    drfm->_dist.reset();
+    unconst(drfm->_prng).seed(seed);
+    unconst(drfm->_dist).reset();
     drfm->_next_modulation = drfm->__calcModulation(steps);
     std::shared_ptr<SourceMap> rfm = drfm;
     std::vector<meshaxis_t> slip(2);
